@@ -132,7 +132,7 @@ def handleEval (req : Sexp) : Sexp :=
           | none => base
           | some gm =>
             -- the structural specification of C02 (single source argument, no update)
-            let sp := Spec.specMap gc.conv.env 400 gm.source gm.target (vals.headD .nil)
+            let sp := Spec.specMap gc.conv.env gm.source gm.target (vals.headD .nil)
             let spOut : Sexp := match sp with
               | some v => mkList "ok" [(valOut true v).run' {}]
               | none => mkList "nospec" []
